@@ -26,6 +26,7 @@ type Shared struct {
 	Text    string           // shared SML text
 	Text2   string
 	Bytes   []byte // shared HSMS bytes (read-only)
+	Big     []byte // shared HSMS bytes of a message with 2048-element arrays (read-only)
 	Fill    map[string]interface{}
 	EllFill map[string]interface{}
 }
@@ -43,16 +44,21 @@ func NewShared() *Shared {
 	)
 	s.IntNode = ast.NewIntNode(4, "x", 3, "y")
 	s.AVar = ast.NewASCIINodeVariable("s", 1, 5)
-	s.Child = ast.NewListNode(ast.NewBinaryNode(1, 2), ast.NewFloatNode(8, 0.5))
+	s.Child = ast.NewListNode(ast.NewBinaryNode(1, 2), ast.NewFloatNode(8, 0.5), ast.NewIntNode(8, -2, 258), ast.NewUintNode(4, 65537), ast.NewBooleanNode(true))
 	s.Incompl = ast.NewDataMessage("tmpl", 6, 11, 2, "H<-E", s.Tmpl)
 	mk := func() *ast.DataMessage {
-		return ast.NewHSMSDataMessage("done", 1, 13, 1, "H->E", ast.NewListNode(ast.NewListNode(ast.NewBinaryNode(1, 2), ast.NewFloatNode(8, 0.5)), ast.NewASCIINode("MDLN")), 258, []byte{1, 2, 3, 4})
+		return ast.NewHSMSDataMessage("done", 1, 13, 1, "H->E", ast.NewListNode(ast.NewListNode(ast.NewBinaryNode(1, 2), ast.NewFloatNode(8, 0.5), ast.NewIntNode(8, -2, 258), ast.NewUintNode(4, 65537), ast.NewBooleanNode(true)), ast.NewASCIINode("MDLN")), 258, []byte{1, 2, 3, 4})
 	}
 	s.Compl = ast.NewHSMSDataMessage("done", 1, 13, 1, "H->E", ast.NewListNode(s.Child, ast.NewASCIINode("MDLN")), 258, []byte{1, 2, 3, 4})
 	s.Ctl = ast.NewHSMSMessageSelectReq(7, []byte{9, 8, 7, 6})
 	s.Text = "S1F13 W\n<L <A x> <B 1>>\n."
 	s.Text2 = "S6F11 [W] n // c\n<L <U4 1 v> <A[..4] w> ...>\n."
 	s.Bytes = mk().ToBytes() // the bytes of an equal twin: s.Compl itself stays untouched
+	bigVals := make([]interface{}, 2048)
+	for i := range bigVals {
+		bigVals[i] = i
+	}
+	s.Big = ast.NewHSMSDataMessage("", 2, 1, 0, "H->E", ast.NewListNode(ast.NewUintNode(2, bigVals...), ast.NewIntNode(4, bigVals...)), 1, []byte{0, 0, 0, 1}).ToBytes()
 	s.Fill = map[string]interface{}{"a": 9, "c": "text", "d": -4, "x": 1, "y": 2, "s": "abc", "b": ast.NewBooleanNode(true)}
 	s.EllFill = map[string]interface{}{"...[0]": 1, "...[1]": 1}
 	return s
@@ -72,7 +78,7 @@ func msgs(ms []*ast.DataMessage, errs, warns []string) string {
 	return fmt.Sprintf("%s errs=%q warns=%q", sb.String(), errs, warns)
 }
 
-// Ops is the operation alphabet (15 operations).
+// Ops is the operation alphabet (16 operations).
 var Ops = []Op{
 	{"String(template)", func(s *Shared) string { return fmt.Sprint(s.Tmpl) }},
 	{"ToBytes(complete message)", func(s *Shared) string { return fmt.Sprintf("%x", s.Compl.ToBytes()) }},
@@ -105,6 +111,13 @@ var Ops = []Op{
 		return fmt.Sprintf("%s %x", m.Type(), m.ToBytes())
 	}},
 	{"NewHSMSMessageSelectRsp(shared request)", func(s *Shared) string { return fmt.Sprintf("%x", ast.NewHSMSMessageSelectRsp(s.Ctl, 0).ToBytes()) }},
+	{"hsms.Parse(2048-element arrays)", func(s *Shared) string {
+		m, ok := hsms.Parse(s.Big)
+		if !ok {
+			return "refused"
+		}
+		return fmt.Sprintf("%s %x", m.Type(), m.ToBytes())
+	}},
 }
 
 // Pairs lists all unordered pairs (i <= j) of operations, including an operation with itself.
